@@ -266,13 +266,20 @@ def oracle(case):
         m = rng.rand(*shape) < 0.25
         m[0] = False
         theta = np.where(m, np.nan, theta)
+    if case.get("theta_dtype"):
+        # replicates of a narrower dtype than the estimate: the comparison `replicate <= estimate` is between the stored values and the
+        # float64 estimate (no rounding of the estimate to the replicates' dtype)
+        if case["theta_dtype"] == "float32":
+            theta = rng.choice(np.array([0.1, 0.3, 0.3, 0.7], dtype=np.float32), size=shape)
+        else:
+            theta = rng.randint(-4, 5, size=shape)
     if case.get("empty_component"):
         # one metric component (or the only one) without any finite replicate: its limits are NaN, the others are unaffected
         theta = np.array(theta, dtype=float)
         theta.reshape(N, -1)[:, 0] = np.nan
     hat_kind = case.get("hat", "median")
     with np.errstate(all="ignore"):
-        hat = np.zeros(yshape) if hat_kind == "zero" else np.nanmedian(theta, axis=0) if hat_kind == "median" else (np.nanmax(theta, axis=0) + 1.0 if hat_kind == "above" else np.nanmin(theta, axis=0) - 1.0 if hat_kind == "below" else theta[0])
+        hat = np.full(yshape, 0.3) if hat_kind == "0.3" else np.full(yshape, -2.5) if hat_kind == "-2.5" else np.zeros(yshape) if hat_kind == "zero" else np.nanmedian(theta, axis=0) if hat_kind == "median" else (np.nanmax(theta, axis=0) + 1.0 if hat_kind == "above" else np.nanmin(theta, axis=0) - 1.0 if hat_kind == "below" else theta[0])
     info = f"[method={method} N={N} Y={yshape} data={kind} nan={case.get('nan')} hat={hat_kind} seed={case['seed']}]"
     alphas = case["alphas"]
     res = {}
@@ -282,9 +289,12 @@ def oracle(case):
             exp = reference(theta, hat, al, method)
         if np.asarray(got).shape != yshape + (2,):
             return f"shape {np.asarray(got).shape}, expected {yshape + (2,)} {info}"
-        if not np.allclose(got, exp, rtol=1e-12, atol=1e-12, equal_nan=True):
+        tol = 1e-6 if case.get("theta_dtype") == "float32" else 1e-12          # float32 replicates: the quantile interpolation runs in float32
+        if not np.allclose(got, exp, rtol=tol, atol=tol, equal_nan=True):
             return f"limits {np.asarray(got).tolist()} differ from the documented formula {exp.tolist()} (alpha={al}) {info}"
         res[al] = np.asarray(got)
+        if case.get("theta_dtype"):
+            continue          # narrow-dtype cases check agreement with the formula only (the derived clauses are float64 statements)
         lo, hi = np.asarray(got)[..., 0], np.asarray(got)[..., 1]
         with np.errstate(all="ignore"):
             mn, mx = np.nanmin(theta, axis=0), np.nanmax(theta, axis=0)
@@ -296,7 +306,7 @@ def oracle(case):
         perm = rng.permutation(N)
         with np.errstate(all="ignore"):
             g2 = bootstrap_ci(theta[perm], hat if method != "quantile" else None, al, method=method)
-            g3 = bootstrap_ci(2.0 * theta + 1.0, (2.0 * hat + 1.0) if method != "quantile" else None, al, method=method)
+            g3 = bootstrap_ci(2.0 * np.asarray(theta, dtype=float) + 1.0, (2.0 * hat + 1.0) if method != "quantile" else None, al, method=method)
         if not np.allclose(g2, got, rtol=1e-12, atol=1e-12, equal_nan=True):
             return f"limits change when the replicates are reordered (alpha={al}) {info}"
         if not np.allclose(g3, 2.0 * np.asarray(got) + 1.0, rtol=1e-9, atol=1e-9, equal_nan=True):
@@ -315,7 +325,7 @@ def oracle(case):
             if not np.allclose(np.asarray(joint)[..., k, :], res[al], rtol=1e-12, atol=1e-12, equal_nan=True):
                 return f"vector alpha: entry {k} differs from the scalar call {info}"
     als = sorted(alphas)
-    if (method != "bca" or N <= 500) and not case.get("_pole"):
+    if (method != "bca" or N <= 500) and not case.get("_pole") and not case.get("theta_dtype"):
         for a1, a2 in zip(als, als[1:]):
             w1, w2 = res[a1], res[a2]
             if np.any(w1[..., 0] > w2[..., 0] + 1e-12) or np.any(w2[..., 1] > w1[..., 1] + 1e-12):
@@ -372,7 +382,12 @@ def bounded(chk):
                 for hat in ("median", "first"):
                     items.append({"method": method, "N": N, "yshape": list(yshape), "kind": "normal", "nan": False, "hat": hat, "seed": chk.seed * 1000 + 7,
                                   "alphas": [0.05, 0.3], "empty_component": True})
-    chk.bounded["bound"] = "a metric component without any finite replicate (limits NaN, other components unaffected); outlier-laden data with alpha down to 1e-6 (acceleration term beyond its pole: formula agreement only); N in {1,2,7,40,200} replicates; metric shapes (), (3,), (2,2); normal / discrete / constant / skewed / tiny-scale data, with and without 25% NaNs; estimate at the median, a replicate, above or below all; alphas 0.01, 0.05, 0.3 (scalar and vector); seeded"
+    for method in ("bc", "bca"):
+        for yshape in ((), (2,)):
+            for seed in range(3):
+                items.append({"method": method, "N": 9, "yshape": list(yshape), "kind": "normal", "nan": False, "hat": "0.3", "seed": chk.seed * 1000 + seed, "alphas": [0.1, 0.3], "theta_dtype": "float32"})
+                items.append({"method": method, "N": 9, "yshape": list(yshape), "kind": "normal", "nan": False, "hat": "-2.5", "seed": chk.seed * 1000 + seed, "alphas": [0.1, 0.3], "theta_dtype": "int64"})
+    chk.bounded["bound"] = "float32 and integer replicates with a float64 estimate; a metric component without any finite replicate (limits NaN, other components unaffected); outlier-laden data with alpha down to 1e-6 (acceleration term beyond its pole: formula agreement only); N in {1,2,7,40,200} replicates; metric shapes (), (3,), (2,2); normal / discrete / constant / skewed / tiny-scale data, with and without 25% NaNs; estimate at the median, a replicate, above or below all; alphas 0.01, 0.05, 0.3 (scalar and vector); seeded"
     chk.bounded["rule"] = "grid x seeds; compared with an independent NumPy/SciPy transcription of the documented formulas"
     run_bounded(chk, items, eval_items)
     chk.samples.append({"bounded-case": items[101]})
